@@ -115,6 +115,8 @@ def arith(op, a, b):
             if isint(a) and isint(b) and b < 0:
                 if a == 0:
                     raise OutOfDomain("0**neg")
+                if abs(a) > 1 and -b * math.log2(abs(a)) > 1100:
+                    raise OutOfDomain("underflow")      # (before computing it: 2**-(3**27))
                 r = Fraction(a) ** b
                 NEGPOW[0] += 1
                 return float(r)   # kind of a negative integer power is left open (int or float), see C03.agree
